@@ -72,6 +72,8 @@ mod codec;
 mod handler;
 #[cfg(feature = "json")]
 pub mod json;
+#[cfg(libp2p_verif)]
+pub mod verif_c45;
 
 use std::{
     collections::{HashMap, HashSet, VecDeque},
